@@ -180,6 +180,8 @@ Definition second : Z := 1000000000.
 (* util.genCertTemplateFromCSR (+ x509.CreateCertificate projected to the fields above) *)
 Definition gen_cert_template (ipf : ip_parser) (c : csr) (subject_ids : list string) (ttl : Z)
            (is_ca : bool) (sg : signer) (now : Z) : option cert :=
+  (* a subject ID containing a comma is refused (fix 5484dbd): join/split cannot represent it *)
+  if existsb (contains_char comma) subject_ids then None else
   let ids := join_with comma subject_ids in
   let cn := if Nat.eqb (String.length (csr_cn c)) 0 then EmptyString
             else match dual_use_cn ids with Some x => x | None => EmptyString end in
@@ -401,11 +403,13 @@ Definition oidc_authenticate (td : string) (audiences : list string) (sub : stri
       if negb (has_prefix "system:serviceaccount" sub) then AErr
       else
         let parts := split_on colon sub in
+        if Nat.ltb (List.length parts) 4 then AErr       (* fix b1796d6: fewer than four parts = invalid sub *)
+        else
         match nth_error parts 2, nth_error parts 3 with
         | Some ns, Some ksa =>
             if negb (check_audience auds audiences) then AErr
             else AOk [gen_spiffe_uri td ns ksa] no_kube
-        | _, _ => APanic        (* parts[2] / parts[3]: index out of range *)
+        | _, _ => APanic        (* parts[2] / parts[3]: index out of range (unreachable, C09_oidc_total) *)
         end
   end.
 
@@ -461,12 +465,13 @@ Inductive addr_shape :=
   (* host part: parses as an IP?; is loopback; for each trusted CIDR that contains "/" and parses
      as a prefix: does it contain the address (only meaningful when is_ip) *)
 
-(* isTrustedAddress: Some b = returns b, None = panics (netip.MustParseAddr on a non-IP host) *)
-Definition is_trusted_address (a : addr_shape) : option bool :=
+(* isTrustedAddress (fix 273ad34: the host is parsed once with netip.ParseAddr; a host that is not an
+   IP literal is not trusted) *)
+Definition is_trusted_address (a : addr_shape) : bool :=
   match a with
-  | AddrNoPort => Some false
+  | AddrNoPort => false
   | AddrHost is_ip loopback in_cidrs =>
-      if is_ip then Some (existsb (fun b => b) in_cidrs || loopback) else None
+      if is_ip then existsb (fun b => b) in_cidrs || loopback else false
   end.
 
 (* one parsed XFCC element: URI list, DNS list, subject CN if a Subject is present *)
@@ -479,13 +484,9 @@ Definition xfcc_ids (es : list xfcc_elem) : list string :=
 Definition xfcc_authenticate (remote_addr_empty header_absent : bool) (a : addr_shape)
            (parsed : option (list xfcc_elem)) : authn_out :=
   if remote_addr_empty || header_absent then AErr
-  else match is_trusted_address a with
-       | None => APanic
-       | Some false => AErr
-       | Some true =>
-           match parsed with
-           | None => AErr
-           | Some [] => AErr
-           | Some es => AOk (xfcc_ids es) no_kube
-           end
+  else if negb (is_trusted_address a) then AErr
+  else match parsed with
+       | None => AErr
+       | Some [] => AErr
+       | Some es => AOk (xfcc_ids es) no_kube
        end.
